@@ -862,6 +862,13 @@ def gen_channel_tables():
     for nm, fn in (('printStatsDefaults', find_func(lpt, 'print_stats', 'LineProfiler')), ('showTextDefaults', find_func(lpt, 'show_text'))):
         out.append('/-- keyword defaults of the signature -/')
         out.append('def %s : List (String × String) := [%s]' % (nm, ', '.join('(%s, %s)' % (lean_str(a), lean_str(b)) for a, b in sig_defaults(fn))))
+    # kernprof's cProfile-based profiler: does writing a dump switch it off?  (`Profile.dump_stats` does, through `create_stats()` -> `disable()`)
+    cp = next((n for n in kp.body if isinstance(n, ast.ClassDef) and n.name == 'ContextualProfile'), None)
+    own = next((n for n in (cp.body if cp else []) if isinstance(n, ast.FunctionDef) and n.name == 'dump_stats'), None)
+    text = ' ; '.join(ast.unparse(st) for st in (own.body if own else []) if not (isinstance(st, ast.Expr) and isinstance(st.value, ast.Constant)))      # docstring left out
+    off = own is None or 'create_stats' in text or '.disable' in text or 'super()' in text or 'Profile.dump_stats' in text
+    out.append('/-- `kernprof.ContextualProfile.dump_stats` goes through `create_stats()` / `disable()` (inherited, or in its own body) -/')
+    out.append('def contextualDumpSwitchesOff : Bool := %s' % ('true' if off else 'false'))
     out.append('/-- `GlobalProfiler.show`: overrides applied to the text-file rendering -/')
     out.append('def explicitTextOverrides : List (String × String) := [%s]' % ', '.join('(%s, %s)' % (lean_str(a), lean_str(b)) for a, b in ov))
     out.append('')
